@@ -841,6 +841,7 @@ func (cl *collector) define(v ssa.Value, depth int) {
 				f.addLE(t, p.intTerm(a, q), 0)
 				cl.define(a, depth+1)
 			}
+			cl.minLower(x, t) // ip_g1.go: constant lower bound proved where the min is computed
 		case name == "builtin.max":
 			for _, a := range args {
 				f.addLE(p.intTerm(a, q), t, 0)
@@ -1181,6 +1182,8 @@ func (cl *collector) defineLen(v ssa.Value, depth int) {
 					f.addLE(lt, term{"", n}, 0)
 				}
 			}
+		case "bytes.Buffer.Next":
+			cl.bufferNextLen(x, lt, depth) // ip_g1.go: 0 <= len <= n, == n when n <= Len() at the call
 		case "strconv.Itoa":
 			f.addLE(term{"", 1}, lt, 0)
 			f.addLE(lt, term{"", 20}, 0) // sign and 19 digits
